@@ -614,7 +614,14 @@ func replayMain(prop, path string) int {
 		if kind == "" {
 			kind = replayKinds[prop]
 		}
-		job = Job{Kind: kind, Args: rec.Replay.Job}
+		args := rec.Replay.Job
+		if kind == "sched" {
+			var m map[string]any
+			json.Unmarshal(args, &m)
+			m["trace"] = true
+			args = mustJSON(m)
+		}
+		job = Job{Kind: kind, Args: args}
 	default:
 		fmt.Fprintln(os.Stderr, "replay file has neither ops nor job")
 		return 2
@@ -641,6 +648,18 @@ func replayMain(prop, path string) int {
 	if last, ok := pretty["last"]; ok && os.Getenv("VREPLAY_VERBOSE") != "" {
 		lb, _ := json.MarshalIndent(last, "", " ")
 		fmt.Println(string(lb))
+	}
+	if tr, ok := pretty["trace"].([]any); ok && os.Getenv("VREPLAY_VERBOSE") != "" {
+		for _, l := range tr {
+			fmt.Println("   ", l)
+		}
+	}
+	if ob, ok := pretty["obs"]; ok {
+		fmt.Println("outcome:", ob)
+	}
+	if bl, ok := pretty["blocked"]; ok && bl != nil {
+		fmt.Println("blocked forever:", bl, "others:", pretty["holders"])
+		hit++
 	}
 	if dl, ok := pretty["deadlock"]; ok && dl != nil {
 		fmt.Println("blocked forever:", dl)
